@@ -140,8 +140,9 @@ Section StepStrand.
     nonempty n = true -> starred n = false ->
     ~ In n (map fst (decl_strands prev)) -> ~ In ds (map snd (decl_strands prev)) ->
     Forall (fun d => In d (declared KindD prev)) ds ->
-    exists r' acc', read_one ct G None (TList line) acc r = (r', Ok acc') /\
-      SInv (prev ++ [SComp n ds]) r' acc' /\ Later r acc r' acc'.
+    exists r' i, (forall accR, read_one ct G None (TList line) accR r = (r', Ok (apply_delta (FKind KindS n i) accR))) /\
+      SInv (prev ++ [SComp n ds]) r' (apply_delta (FKind KindS n i) acc) /\
+      Later r acc r' (apply_delta (FKind KindS n i) acc).
   Proof.
     intros SI Hdec Hne Hust Hnew Hseq Hds. pose proof SI as [C B].
     set (st := r_st r). set (i := length (heap st)).
@@ -215,6 +216,6 @@ Section StepStrand.
       + eapply Forall2_impl'; [|exact F]. cbn. tauto.
       + cbn [r_st hold heap]. rewrite heap_mk_new. apply hget_new.
     - intros n0 names0 sst0 [].
-    - eauto.
+    - eexists. eexists. split; [exact E3 | split; [exact SI' | exact L']].
   Qed.
 End StepStrand.
